@@ -49,6 +49,21 @@ pub assume_specification[ Literal::u64_unsuffixed ](n: u64) -> (r: Literal) ensu
 pub assume_specification[ Literal::string ](s: &str) -> (r: Literal)
     ensures lit_view(&r) == Tok::LitS(s@);
 
+// `text.parse::<TokenStream>().unwrap()`: the tokens are a function of the text; it panics unless the text lexes
+pub uninterp spec fn parse_toks(s: Seq<char>) -> Seq<Tok>;
+pub uninterp spec fn lexes(s: Seq<char>) -> bool;
+pub trait ShimParseTokens {
+    spec fn pview(&self) -> Seq<char>;
+    fn shim_parse_tokens(&self) -> (r: TokenStream)
+        requires lexes(self.pview()),
+        ensures ts_view(&r) == parse_toks(self.pview());
+}
+impl ShimParseTokens for String {
+    open spec fn pview(&self) -> Seq<char> { self@ }
+    #[verifier::external_body]
+    fn shim_parse_tokens(&self) -> (r: TokenStream) { self.parse().unwrap() }
+}
+
 pub trait Interp {
     spec fn toks(&self) -> Seq<Tok>;
     fn interp(&self, s: &mut TokenStream)
